@@ -73,7 +73,8 @@ def uas_note(uas):
 POISON = ['RemoveRecord', 'NoSuchTable_verif_poison', 1]
 
 
-def run_fault_history(seed, profile="general", n_bundles=12, probe_prob=0.6, max_positions=10, tid=None):
+def run_fault_history(seed, profile="general", n_bundles=12, probe_prob=0.6, max_positions=10, tid=None,
+                      hooks=None):
   """
   C04 fault enumeration on a real history.  Before a sampled bundle is applied for real:
     1. dry run: the bundle plus a poison action that fails last (a later action failing after earlier
@@ -87,7 +88,8 @@ def run_fault_history(seed, profile="general", n_bundles=12, probe_prob=0.6, max
   import faults    # pylint: disable=import-outside-toplevel
   rng = random.Random("fault-%s" % (seed,))
   gen = Gen("gen-%s" % (seed,), profile)
-  rec = Recorder(tid=tid or "fault-%s-%d" % (profile, seed))
+  rec = Recorder(tid=tid or "fault:%s-%d" % (profile, seed))
+  rec.keep_states = bool(hooks and hooks.get("keep_states"))
   rec.state, rec.init_state, rec.schema, rec.init_schema = {}, {}, {}, {}
   rec.bundle([['InitNewDoc']], tag="init")
   fw = faults.FaultWrapper(rec.eng)
